@@ -11,7 +11,7 @@ THEOREMS = ["C07_multiples_of_147", "C07_tempo_closed_form", "C07_tempo_step_le_
             "C07_tick_delivery_all_passes", "C07_log_by_updates", "C07_schedule_fm_partial",
             "C07_tempo_table_partial", "C07_schedule_fm_tempo_partial", "C07_slur_update_partial", "C07_psg_update_partial",
             "C07_list_machine_times", "C07_export_extent_noloop_partial", "C07_export_covers_first_pass_partial",
-            "C07_schedule_fm_slur_partial"]
+            "C07_schedule_fm_slur_partial", "C07_schedule_psg_partial"]
 LEVEL = "proof"
 STREAM = "vgm.bytes"
 CHUNK = 25
@@ -27,13 +27,13 @@ LEVEL_TEXT = ("Machine-checked theorems over Model/MdDriver.lean. Clock: the pla
               "synthetic rest at t+on (C07_list_machine_times). Schedule: for a song with one channel track the tick table (N_k, c_k, tempo_k) is a "
               "function of the tick stream alone, tempo commands taking effect from the next update (C07_tempo_table_partial); for an FM channel "
               "without SLUR every update k of the log writes key-off / key-on (last) iff the events of ticks N_k..N_{k+1}-1 call for them "
-              "(C07_schedule_fm_partial, C07_schedule_fm_tempo_partial), and with slurs the slur flag and the suppressed key writes follow the tick stream update by update (C07_schedule_fm_slur_partial); per update: slurred FM notes (no key-off, no key-on, pitch only), PSG "
+              "(C07_schedule_fm_partial, C07_schedule_fm_tempo_partial), and with slurs the slur flag and the suppressed key writes follow the tick stream update by update (C07_schedule_fm_slur_partial); for a PSG melody channel the last attenuation write of a key-on update is psgAtt(volume, first envelope level) and 15 in the update in which the track ends (C07_schedule_psg_partial); per update: slurred FM notes (no key-off, no key-on, pitch only), PSG "
               "attenuation at key-on and 15 at the end of the track (C07_slur_update_partial, C07_psg_update_partial); extent of the log for a track "
               "without loop point (C07_export_extent_noloop_partial), and for any loop structure the log covers the whole first pass (C07_export_covers_first_pass_partial). Closed form of the tempo accumulator, antitonicity of the attenuation formulas, "
               "soundness of the regenerated frequency tables. The model reproduces every real file byte for byte; the schedule oracle judges every real export.")
 LEVEL_NOTE = ("Partial: the whole-log theorems are for songs with ONE channel track (plus subroutine tracks); SegTop (every SEGNO at the top level of the "
               "channel's own track) is a hypothesis of the all-pass theorems - outside it the real player resumes elsewhere (known findings segno-in-sub, "
-              "segno-in-loop); PSG channels are proved per update (any pass), not composed over the log; C07_pitch_value_partial gives "
+              "segno-in-loop); the PSG theorem reads the volume setting and the envelope off the channel state (their derivation from the VOL/INS commands is the oracle's); C07_pitch_value_partial gives "
               "the computed/written words, not the register-file replay; export_extent is proved for tracks without loop point only - for looping songs "
               "C07_log_by_updates says when set_loop/stop happen in terms of loop_trigger/get_loop_count, the loop-count lemma (reset position re-crossed "
               "one loop length after the marker) is NOT proved. These, several channels (tempo commands of all channels compete in track order), and "
